@@ -187,7 +187,7 @@ func c01ServeTCPConn(s *ServerDNS, reqs []*dns.Msg, wires [][]byte) (obs []c01TO
 func c01NewRigFor(t string) (rig *c01Rig, release func()) {
 	rig = &c01Rig{metrics: &c01Metrics{}}
 	base := func(name string) ConfigBase {
-		return ConfigBase{Name: name, Addr: "192.0.2.53:53", Handler: c01Handler{}, Metrics: rig.metrics}
+		return ConfigBase{Name: name, Addr: "192.0.2.53:53", Handler: c01Handler{}, Metrics: rig.metrics, Disposer: c01Disposer}
 	}
 	release = func() {}
 	switch t {
@@ -324,6 +324,7 @@ func TestVerifC01Sizes(t *testing.T) {
 			}
 		},
 		func(c c01SizeCase) []vrt.Finding { return c01RunSizes(r, c) })
+	r.Count("responses_handed_to_disposer", c01Disposer.disposed)
 	r.Finish()
 	os.Exit(0)
 }
